@@ -228,6 +228,8 @@ pub struct RuleDoc {
   pub rule: R,
   pub utils: BTreeMap<String, R>,
   pub constraints: BTreeMap<String, R>,
+  /// global utility rules (a rule + its own constraints), registered before the document loads
+  pub globals: BTreeMap<String, (R, BTreeMap<String, R>)>,
 }
 
 impl RuleDoc {
@@ -236,7 +238,23 @@ impl RuleDoc {
       rule,
       utils: BTreeMap::new(),
       constraints: BTreeMap::new(),
+      globals: BTreeMap::new(),
     }
+  }
+  pub fn globals_json(&self) -> Value {
+    let m: Map<String, Value> = self
+      .globals
+      .iter()
+      .map(|(k, (r, cons))| {
+        let mut o = Map::new();
+        o.insert("rule".into(), r.to_json());
+        if !cons.is_empty() {
+          o.insert("constraints".into(), Value::Object(cons.iter().map(|(a, b)| (a.clone(), b.to_json())).collect()));
+        }
+        (k.clone(), Value::Object(o))
+      })
+      .collect();
+    Value::Object(m)
   }
   pub fn core_json(&self) -> Value {
     let mut m = Map::new();
@@ -257,7 +275,23 @@ impl RuleDoc {
   }
   /// load through the real deserialiser as a RuleCore (no "must have kinds" requirement)
   pub fn load_core(&self, lang: SupportLang) -> Result<RuleCore<SupportLang>, String> {
-    load_core_json(&self.core_json(), lang)
+    if self.globals.is_empty() {
+      return load_core_json(&self.core_json(), lang);
+    }
+    // global utilities are RuleCores of their own (rule + constraints), registered first
+    let globals = ast_grep_config::GlobalRules::default();
+    for (id, (r, cons)) in &self.globals {
+      let mut o = Map::new();
+      o.insert("rule".into(), r.to_json());
+      if !cons.is_empty() {
+        o.insert("constraints".into(), Value::Object(cons.iter().map(|(a, b)| (a.clone(), b.to_json())).collect()));
+      }
+      let ser: SerializableRuleCore = from_str(&Value::Object(o).to_string()).map_err(|e| format!("yaml: {e}"))?;
+      let core = ser.get_matcher(DeserializeEnv::new(lang).with_globals(&globals)).map_err(|e| format!("global: {e:?}"))?;
+      globals.insert(id, core).map_err(|e| format!("global insert: {e:?}"))?;
+    }
+    let ser: SerializableRuleCore = from_str(&self.core_json().to_string()).map_err(|e| format!("yaml: {e}"))?;
+    ser.get_matcher(DeserializeEnv::new(lang).with_globals(&globals)).map_err(|e| format!("core: {e:?}"))
   }
 }
 
@@ -308,6 +342,7 @@ pub struct Compiled {
   pub rule: C,
   pub utils: BTreeMap<String, C>,
   pub constraints: BTreeMap<String, C>,
+  pub globals: BTreeMap<String, (C, BTreeMap<String, C>)>,
 }
 
 fn atom(r: &R, lang: SupportLang) -> Result<C, String> {
@@ -431,10 +466,19 @@ pub fn compile_doc(d: &RuleDoc, lang: SupportLang) -> Result<Compiled, String> {
   for (k, v) in &d.constraints {
     constraints.insert(k.clone(), compile(v, lang)?);
   }
+  let mut globals = BTreeMap::new();
+  for (k, (r, cons)) in &d.globals {
+    let mut cc = BTreeMap::new();
+    for (a, b) in cons {
+      cc.insert(a.clone(), compile(b, lang)?);
+    }
+    globals.insert(k.clone(), (compile(r, lang)?, cc));
+  }
   Ok(Compiled {
     rule: compile(&d.rule, lang)?,
     utils,
     constraints,
+    globals,
   })
 }
 
@@ -493,8 +537,12 @@ impl<'c> Eval<'c> {
   }
 
   fn constraints<'t>(&self, env: Env<'t>) -> Option<Env<'t>> {
+    self.constraints_of(&self.c.constraints, env)
+  }
+
+  fn constraints_of<'t>(&self, cons: &BTreeMap<String, C>, env: Env<'t>) -> Option<Env<'t>> {
     let mut cur = env;
-    for (var, rule) in &self.c.constraints {
+    for (var, rule) in cons {
       let Some(node) = cur.get_match(var).cloned() else {
         continue;
       };
@@ -570,7 +618,15 @@ impl<'c> Eval<'c> {
           sibs.reverse();
         }
         let i = sibs.iter().position(|k| same(k, n))? as i128 + 1;
-        anb_selects(*a, *b, i).then(|| env.clone())
+        if !anb_selects(*a, *b, i) {
+          return None;
+        }
+        // siblings are only counted; the inspected node itself satisfies ofRule and
+        // contributes its bindings like a conjunct
+        match of {
+          Some(of) => self.eval(of, n, env),
+          None => Some(env.clone()),
+        }
       }
       C::All(rs) => {
         let mut cur = env.clone();
@@ -585,8 +641,14 @@ impl<'c> Eval<'c> {
         None => Some(env.clone()),
       },
       C::Matches(u) => {
-        let body = self.c.utils.get(u)?;
-        self.eval(body, n, env)
+        if let Some(body) = self.c.utils.get(u) {
+          return self.eval(body, n, env);
+        }
+        // a global utility is a rule with its own constraints: both must hold, or nothing
+        // of it is visible
+        let (body, cons) = self.c.globals.get(u)?;
+        let e = self.eval(body, n, env)?;
+        self.constraints_of(cons, e)
       }
       C::Rel {
         kind,
